@@ -50,8 +50,8 @@ PY
     git -C $LAB/repo checkout -q -- .
     ;;
 tests)
-    cd $LAB/repo && cargo test --workspace --no-fail-fast --offline 2>&1 | grep -E "^test .* \.\.\. (ok|FAILED)" | sort > /tmp/mutlab_tests.txt
-    echo "passed=$(grep -c '\.\.\. ok' /tmp/mutlab_tests.txt) failed: $(grep FAILED /tmp/mutlab_tests.txt | sed 's/test \(.*\) \.\.\. FAILED/\1/' | tr '\n' ' ')"
+    cd $LAB/repo && cargo test --workspace --no-fail-fast --offline 2>&1 | grep -E "^test .* \.\.\. (ok|FAILED)" | sort > $LAB/tests.txt
+    echo "passed=$(grep -c '\.\.\. ok' $LAB/tests.txt) failed: $(grep FAILED $LAB/tests.txt | sed 's/test \(.*\) \.\.\. FAILED/\1/' | tr '\n' ' ')"
     ;;
 teardown)
     git -C /repo worktree remove --force $LAB/repo 2>/dev/null
